@@ -283,8 +283,11 @@ func (w *world) round(p votePlan, streams []int) (obs []any, honest []any) {
 			o["attested"] = hexs([]byte{0xBA, 0xD0, byte(g.R.Intn(4))})
 		}
 		rm := []any{}
+		seenRm := map[int]bool{}
 		for k, r := range p.removes {
-			if rmV[k][i] && len(rm) < 5 {
+			// removal ids of one observation are the keys of a Go map: distinct
+			if rmV[k][i] && len(rm) < 5 && !seenRm[r.id] {
+				seenRm[r.id] = true
 				rm = append(rm, S(r.id))
 			}
 		}
